@@ -11,7 +11,7 @@ import Momo.Extracted
 
   Three layers:
     1. the *machine* functions (`…64`): the C++ text operation by operation, every `+ - << *` reduced
-       mod 2^64, `Log2` = the de Bruijn code with the extracted tables;
+       mod 2^64, `Log2` = the de Bruijn code on machine words (`UInt64` / `UInt32`) with the extracted tables;
     2. the *ideal* functions over unbounded naturals (`Nat.log2`, `/`, `%`) — what the machine functions
        compute when nothing wraps (theorem `segItem64_eq` … in Proof/SegMachine.lean);
     3. the container as a list of segments that records for every segment an allocation id and its size.
@@ -23,7 +23,8 @@ open Momo
 
 /-! ### 64-bit / 32-bit unsigned arithmetic -/
 
-/-- reduction mod 2^64 (written with a comparison first so that the compiled driver stays on small numbers) -/
+/-- reduction mod 2^64 (written with a comparison first so that the compiled driver avoids the division;
+    `w64 n = n % 2^64` is lemma `w64_eq`) -/
 def w64 (n : Nat) : Nat := if n < 18446744073709551616 then n else n % 18446744073709551616
 def w32 (n : Nat) : Nat := if n < 4294967296 then n else n % 4294967296
 /-- `a + b` on `size_t` -/
@@ -37,21 +38,30 @@ def mul64 (a b : Nat) : Nat := w64 (a * b)
 
 /-! ### `UIntMath::pvLog2` -/
 
-/-- the lines `value |= value >> s;` for every `s` of the extracted shift list -/
-def smear (shifts : List Nat) (v : Nat) : Nat := shifts.foldl (fun x s => x ||| (x >>> s)) v
+/-- the lines `value |= value >> s;` for every `s` of the extracted shift list, on `uint64_t` -/
+def smearU64 (shifts : List Nat) (v : UInt64) : UInt64 :=
+  shifts.foldl (fun x s => x ||| (x >>> UInt64.ofNat s)) v
+
+/-- the same on `uint32_t` -/
+def smearU32 (shifts : List Nat) (v : UInt32) : UInt32 :=
+  shifts.foldl (fun x s => x ||| (x >>> UInt32.ofNat s)) v
 
 def tab64 : Array Nat := Extracted.log2Tab64.toArray
 def tab32 : Array Nat := Extracted.log2Tab32.toArray
 
-/-- `pvLog2` for `sizeof(UInt) == 8` (Utility.h:374-396): smear, `value -= value >> 1` (isolates the top
-    bit), multiply by the de Bruijn constant mod 2^64, top 6 bits index `tab64`. Total: `Log2(0) = tab64[0]`. -/
+/-- `pvLog2` for `sizeof(UInt) == 8` (Utility.h:374-396), on machine words (`UInt64`: `- * >>` wrap exactly
+    like `size_t`): smear, `value -= value >> 1` (isolates the top bit), multiply by the de Bruijn constant,
+    top 6 bits index `tab64`. Total: `Log2(0) = tab64[0]`. The argument is reduced mod 2^64 first. -/
 def log2db64 (value : Nat) : Nat :=
-  tab64.getD (w64 ((smear Extracted.log2Smear64 (w64 value) - (smear Extracted.log2Smear64 (w64 value) >>> 1))
-    * Extracted.log2Mul64) >>> Extracted.log2Shift64) 0
+  tab64.getD (((smearU64 Extracted.log2Smear64 (UInt64.ofNat value)
+      - (smearU64 Extracted.log2Smear64 (UInt64.ofNat value) >>> 1))
+    * UInt64.ofNat Extracted.log2Mul64) >>> UInt64.ofNat Extracted.log2Shift64).toNat 0
 
-/-- `pvLog2` for `sizeof(UInt) == 4` (Utility.h:355-372): smear, multiply mod 2^32, top 5 bits index `tab32`. -/
+/-- `pvLog2` for `sizeof(UInt) == 4` (Utility.h:355-372), on `UInt32`: smear, multiply, top 5 bits index
+    `tab32` (no isolate step). -/
 def log2db32 (value : Nat) : Nat :=
-  tab32.getD (w32 (smear Extracted.log2Smear32 (w32 value) * Extracted.log2Mul32) >>> Extracted.log2Shift32) 0
+  tab32.getD ((smearU32 Extracted.log2Smear32 (UInt32.ofNat value) * UInt32.ofNat Extracted.log2Mul32)
+    >>> UInt32.ofNat Extracted.log2Shift32).toNat 0
 
 /-! ### sizing functions -/
 
